@@ -159,7 +159,13 @@ def run(root, pkg, harnesses, jobs=4, timeout_s=1500, extra=()):
     logp = os.path.join(root, 'kani-%s.log' % pkg)
     to = False
     with open(logp, 'w') as lf:
-        p = subprocess.Popen(cmd, cwd=root, env=env, stdout=lf, stderr=subprocess.STDOUT, text=True, start_new_session=True)
+        # no swap on this machine: one runaway CBMC (seen: 65 GB) would take everything else down with it
+        def _limit():
+            import resource
+            lim = int(os.environ.get('VERIF_KANI_MEM_GB', '28')) * (1 << 30)
+            resource.setrlimit(resource.RLIMIT_AS, (lim, lim))
+        p = subprocess.Popen(cmd, cwd=root, env=env, stdout=lf, stderr=subprocess.STDOUT, text=True, start_new_session=True,
+                             preexec_fn=_limit)
         try:
             rc = p.wait(timeout=timeout_s)
         except subprocess.TimeoutExpired:
